@@ -1082,6 +1082,14 @@ func hpRun(rt *rapid.T, prop string) {
 // hpCheckClean: C01 and C05 oracles for an undamaged block delivered to a
 // decoder with matching limits.
 func hpCheckClean(prop string, g *hpGen, b *hpBlock, B *hpSide, R *hpRefResult, ref *hpRef) *vs.Violation {
+	if prop == "C05" {
+		// C05's own oracles come first: they look at the encoder's output and at
+		// the tables and do not presuppose a successful round trip (which is C01's
+		// concern and checked afterwards).
+		if v := hpCheckC05(g, b, B, R); v != nil {
+			return v
+		}
+	}
 	ev := "events=" + b.evsig
 	if B.err != nil {
 		return vs.Violf("C01", "decoder_error", hpErrClass(B.err)+"|"+ev,
@@ -1107,60 +1115,63 @@ func hpCheckClean(prop string, g *hpGen, b *hpBlock, B *hpSide, R *hpRefResult, 
 		vs.G.Inc("refcheck.DISAGREE")
 		ref.adopt(B.d)
 	}
-	if prop != "C05" {
-		return nil
-	}
-	// C05: representation level, per field, on the encoder's output.
-	if R.status == hpRefOK {
-		k := 0
-		for _, rep := range R.reprs {
-			if rep.kind == hpKindSizeUpdate {
-				continue
-			}
-			if k >= len(b.fields) {
-				break
-			}
-			f := b.fields[k]
-			if rep.end > b.spans[k] || (k > 0 && rep.off < b.spans[k-1]) {
-				break // representation does not line up with the field's bytes; C01 territory
-			}
-			if f.Sensitive {
-				if rep.kind != hpKindLitNever {
-					kinds := []string{"indexed", "literal with incremental indexing", "literal without indexing", "literal never indexed", "size update"}
-					return vs.Violf("C05", "sensitive_not_never_indexed", kinds[rep.kind],
-						"sensitive field %d %v was encoded as %q (bytes %s), not as a never-indexed literal", k, f, kinds[rep.kind], vs.Hex(b.data[rep.off:rep.end]))
-				}
-				if rep.idx != 0 {
-					vs.G.Inc("probe.sensitive_name_indexed")
-				}
-			}
-			if rep.fromTaint {
-				return vs.Violf("C05", "reference_to_sensitive_entry", "indexed",
-					"field %d %v was encoded as index %d, which resolves to a table entry inserted by a sensitive field", k, f, rep.idx)
-			}
-			k++
+	return nil
+}
+
+var hpKindNames = []string{"indexed", "literal with incremental indexing", "literal without indexing", "literal never indexed", "size update"}
+
+// hpCheckC05: representation level, per field, on the encoder's output (parsed
+// by the reference decoder), plus the decoder's view and both tables.
+func hpCheckC05(g *hpGen, b *hpBlock, B *hpSide, R *hpRefResult) *vs.Violation {
+	k := 0
+	for _, rep := range R.reprs {
+		if rep.kind == hpKindSizeUpdate {
+			continue
 		}
-	}
-	for k, f := range b.fields {
-		if k >= len(B.emitted) {
+		if k >= len(b.fields) {
 			break
 		}
-		if f.Sensitive && !B.emitted[k].Sensitive {
-			return vs.Violf("C05", "sensitive_flag_lost", "decoder", "sensitive field %d %v was reported by the decoder without Sensitive", k, f)
+		f := b.fields[k]
+		if rep.end > b.spans[k] || (k > 0 && rep.off < b.spans[k-1]) {
+			break // representation does not line up with the field's bytes; C01 territory
 		}
 		if f.Sensitive {
-			prev := B.insStart
-			if k > 0 {
-				prev = B.insAt[k-1]
+			if rep.kind != hpKindLitNever {
+				return vs.Violf("C05", "sensitive_not_never_indexed", hpKindNames[rep.kind],
+					"sensitive field %d %v was encoded as %q (bytes %s), not as a never-indexed literal", k, f, hpKindNames[rep.kind], vs.Hex(b.data[rep.off:rep.end]))
 			}
-			if B.insAt[k] != prev {
-				return vs.Violf("C05", "sensitive_in_decoder_table", "inserted_on_decode",
-					"decoding sensitive field %d %v inserted %d entr(ies) into the decoder's dynamic table", k, f, B.insAt[k]-prev)
+			if rep.idx != 0 {
+				vs.G.Inc("probe.sensitive_name_indexed")
 			}
+		}
+		if rep.fromTaint {
+			return vs.Violf("C05", "reference_to_sensitive_entry", "indexed",
+				"field %d %v was encoded as index %d, which resolves to a table entry inserted by a sensitive field", k, f, rep.idx)
+		}
+		k++
+	}
+	// the decoder's view, as far as it decoded the fields that were written
+	for k, f := range b.fields {
+		if k >= len(B.emitted) || B.emitted[k].Name != f.Name || B.emitted[k].Value != f.Value {
+			break
+		}
+		if !f.Sensitive {
+			continue
+		}
+		if !B.emitted[k].Sensitive {
+			return vs.Violf("C05", "sensitive_flag_lost", "decoder", "sensitive field %d %v was reported by the decoder without Sensitive", k, f)
+		}
+		prev := B.insStart
+		if k > 0 {
+			prev = B.insAt[k-1]
+		}
+		if B.insAt[k] != prev {
+			return vs.Violf("C05", "sensitive_in_decoder_table", "inserted_on_decode",
+				"decoding sensitive field %d %v inserted %d entr(ies) into the decoder's dynamic table", k, f, B.insAt[k]-prev)
 		}
 	}
 	// no table entry may carry a pair that was only ever written as sensitive
-	for side, ents := range [][]HeaderField{b.encTab, dt.table.ents} {
+	for side, ents := range [][]HeaderField{b.encTab, B.d.dynTab.table.ents} {
 		for _, e := range ents {
 			p := pairNameValue{e.Name, e.Value}
 			if g.sens[p] && !g.nonSens[p] {
